@@ -438,9 +438,9 @@ def from_py(x, P: Program):
     if t is decimal.Decimal:
         return ["dec", str(x)]
     if t is fractions.Fraction:
-        return ["frac", x.numerator, x.denominator]
+        return ["frac", int(x.numerator), int(x.denominator)]
     if t is uuid.UUID:
-        return ["uuid", x.int]
+        return ["uuid", int(x.int)]      # UUID(int=True).int is the bool itself
     if t in (pathlib.PurePosixPath, pathlib.PosixPath):
         return ["path", str(x)]
     if t is re.Pattern:
@@ -511,17 +511,17 @@ def _eqkey(c):
     return json.dumps(c)
 
 
-def canon(vj):
+def _canon(vj):
     """Canonical form for comparison: sets sorted, dict duplicates resolved last-wins."""
     if vj is None or isinstance(vj, (bool, int, str)):
         return vj
     tag = vj[0]
     if tag in ("l", "t", "dq", "it"):
-        return [tag, [canon(x) for x in vj[1]]]
+        return [tag, [_canon(x) for x in vj[1]]]
     if tag in ("s", "fs"):
         seen, out = set(), []
         for x in vj[1]:
-            c = canon(x)
+            c = _canon(x)
             k = _eqkey(c)
             if k not in seen:
                 seen.add(k)
@@ -530,20 +530,20 @@ def canon(vj):
     if tag == "d":
         order, m = [], {}
         for k, v in vj[1]:
-            ck = json.dumps(canon(k))
+            ck = json.dumps(_canon(k))
             if ck not in m:
                 order.append(ck)
-            m[ck] = canon(v)
+            m[ck] = _canon(v)
         return ["d", [[json.loads(ck), m[ck]] for ck in order]]
     if tag == "o":
-        return ["o", vj[1], [[k, canon(v)] for k, v in vj[2]]]
+        return ["o", vj[1], [[k, _canon(v)] for k, v in vj[2]]]
     return vj
 
 
-def canon_unordered(vj):
+def _canon_unordered(vj):
     """Like canon, and every list is sorted: for marshalled forms of types that contain sets,
     whose list order is the hash order of the set."""
-    c = canon(vj)
+    c = _canon(vj)
     def go(x):
         if isinstance(x, list) and x and x[0] in ("l", "t", "dq", "s", "fs"):
             return [x[0], sorted((go(y) for y in x[1]), key=json.dumps)]
@@ -596,3 +596,16 @@ def run_real(fn, P):
         if isinstance(e, (KeyboardInterrupt, SystemExit, MemoryError)):
             raise
         return {"err": err_class(e), "msg": f"{type(e).__name__}: {e}"[:200]}
+
+
+class Strict(str):
+    """Canonical form as JSON text: comparison is type-strict (Python's `1 == True` must not make a bool and an
+    int position compare equal)."""
+
+
+def canon(vj):
+    return Strict(json.dumps(_canon(vj), sort_keys=False))
+
+
+def canon_unordered(vj):
+    return Strict(json.dumps(_canon_unordered(vj), sort_keys=False))
